@@ -77,7 +77,8 @@ def runH : Handler := fun j => do
   if mode == "inproc" then
     .ok (jObj [("comparisons", jArr ((runInProc cfg consumed).map jComparison))])
   else
-    let fresh := mode != "unfixed"
+    -- "ded": the code as it stands (own queues per worker iff the source says so, fix F9); "unfixed" forces the shared pair
+    let fresh := mode != "unfixed" && ownQueues
     let r := runFrom fresh cfg initState consumed
     let st := r.1
     .ok (jObj [("comparisons", jArr (r.2.map jComparison)),
